@@ -310,6 +310,39 @@ def ppc(rng, L, hostile):
 SCANNING = ("find", "rfind", "ffo", "ffno", "flo", "flno", "ct_", "iter_", "stream", "c_str", "data", "str", "sw_", "ew_")
 
 
+IT_END = 2 ** 64 - 1
+IT_MOVES = ["i", "d", "a0", "a1", "a2", "a3", "a@len", "a@len-1", "a@cap", "anpos", "anpos-1", "a9223372036854775808",
+            "s0", "s1", "s2", "s@len", "s@len-1", "snpos", "s256", "a256", "a65536"]
+
+
+def it_moves(rng):
+    return ",".join(rng.choice(IT_MOVES) for _ in range(rng.choice([1, 1, 2, 2, 3, 5]))) if rng.random() < 0.93 else "-"
+
+
+def it_sim(n, rev, start, moves):
+    """index of a FixedString iterator (repaired code) built at `start` on a string of length n after `moves`
+    (literal numbers only); used to ask `it[ k]` only inside the buffer"""
+    i = IT_END if start == "end" or int(start) >= n else int(start)
+    last = (n - 1) % 2 ** 64
+    for m in ([] if moves == "-" else moves.split(",")):
+        fwd_step = (m == "i") != rev if m in ("i", "d") else None
+        if m in ("i", "d"):
+            if fwd_step:
+                i = i + 1 if i < last else IT_END
+            elif i != IT_END:
+                i = i - 1 if i > 0 else IT_END
+        else:
+            v = IT_END if m[1:] == "npos" else int(m[1:])
+            add = (m[0] == "a") != rev
+            if i != IT_END:
+                if add:
+                    j = (i + v) % 2 ** 64
+                    i = j if j < n else IT_END
+                else:
+                    i = i - v if i >= v else IT_END
+    return i
+
+
 def gen_op(rng, L, hostile, noscan=False):
     """one random operation line; `noscan`: no operation whose *model* walks the whole content index by index
     (the list-based model is quadratic there; contents of 64 k characters are exercised by the mutators)"""
@@ -414,6 +447,10 @@ def gen_op1(rng, L, hostile):
         lambda: "str", lambda: "c_str", lambda: "data", lambda: "length", lambda: "empty", lambda: "front", lambda: "back",
         lambda: "stream", lambda: "iter_fwd", lambda: "iter_cfwd", lambda: "iter_rev", lambda: "iter_crev", lambda: "it_dist",
         lambda: "at %s" % P(), lambda: "cat %s" % P(), lambda: "it_deref %s" % P(),
+        lambda: "it_walk %s %s %s" % (rng.choice("fr"), itpos(rng, L), it_moves(rng)),
+        lambda: "it_walkd %s %s %s" % (rng.choice("fr"), itpos(rng, L), it_moves(rng)),
+        lambda: "it_walkd %s %s %s" % (rng.choice("fr"), itpos(rng, L), it_moves(rng)),
+        lambda: "it_rel %s %d %s %s" % (rng.choice("fr"), rng.randrange(6), itpos(rng, L), itpos(rng, L)),
         lambda: "idx %s" % rng.choice(["0", "1", "@len", "@len-1", "@cap", "@cap-1"]),
         lambda: "cmp_f %s" % F(), lambda: "cmp_s %s" % S(), lambda: "cmp_p %s" % Cs(),
         lambda: "cmp_ccf %s %s %s" % (P(), P(), F()),
@@ -542,6 +579,21 @@ def exhaustive_cases(maxL, depth):
                     lines.append("idx " + n)
                 for m in nums:
                     lines += ["substr %s %s" % (n, m), "copy %s %s" % (n, m)]
+            # iterator arithmetic: every start, every sequence of up to two moves (+ a few longer ones), both directions
+            mv1 = ["i", "d", "a0", "a1", "a2", "a%d" % L, "anpos", "s0", "s1", "s2", "snpos"]
+            mvs = ["-"] + mv1 + [x + "," + y for x in mv1 for y in ("i", "d", "a1", "s1", "anpos")] + ["d,d,i", "i,i,d,d", "s1,a1,d"]
+            for d in "fr":
+                for a in its:
+                    for m in mvs:
+                        lines += ["it_walk %s %s %s" % (d, a, m), "it_walkd %s %s %s" % (d, a, m)]
+                        mi = it_sim(len(st), d == "r", a, m)
+                        for k in (0, 1, 2, IT_END):
+                            ok = ((mi + k) % 2 ** 64 <= L) if d == "f" else (k > mi or mi - k <= L)
+                            if ok:
+                                lines.append("it_walki %s %s %s %s" % (d, a, m, "npos" if k == IT_END else str(k)))
+                    for b in its:
+                        for r in range(6):
+                            lines.append("it_rel %s %d %s %s" % (d, r, a, b))
             for c in ("61", "62", "00"):
                 lines += ["sw_c " + c, "ew_c " + c, "ct_c " + c]
                 for fam in FIND_FAMILIES:
